@@ -332,7 +332,21 @@ ADDENDA8 = {   # round 14
     "C15": "a tensor-shaped user Jacobian is flattened to (fdim, xdim) without transposition in every solver.",
     "C19": "every piece of a rolled-back step is removed (piece balance re-judged).",
 }
-for _add in (ADDENDA2, ADDENDA3, ADDENDA4, ADDENDA5, ADDENDA6, ADDENDA7, ADDENDA8):
+ADDENDA9 = {   # round 15
+    "C03": "the loop guard asks nothing of the step but that it is not exactly zero.",
+    "C04": "only the constructor, the dt setter, reset(), integrate() and the orientation helper store the step (re-judged).",
+    "C05": "the Richardson wrapper acts on the verdict of every controller call.",
+    "C06": "the Richardson wrapper hands over the pieces of the step just taken (lists emptied and filled unconditionally).",
+    "C07": "the Hermite piece is the cubic outside its step as well (re-judged: classification samples).",
+    "C08": "the event views are read-only (no cached snapshot; re-judged).",
+    "C09": "the interpolant's gradient is the derivative of its value polynomial (re-judged: requires_dstate events).",
+    "C13": "the kick mask survives every change of method (re-judged).",
+    "C14": "width-based stopping tests compare the full bracket width with the tolerance.",
+    "C18": "args are bound element by element (no re-grouping before the zip).",
+    "C19": "reset() re-creates the dense output (re-judged).",
+    "C20": "the dt setter stores what it is given (re-judged).",
+}
+for _add in (ADDENDA2, ADDENDA3, ADDENDA4, ADDENDA5, ADDENDA6, ADDENDA7, ADDENDA8, ADDENDA9):
     for _k, _v in _add.items():
         ADDENDA[_k] = (ADDENDA[_k] + " " + _v[0].upper() + _v[1:]) if _k in ADDENDA else "Also decided: " + _v
 for _k, _v in ADDENDA.items():
